@@ -10,8 +10,8 @@ STEP = ["C11|finished-or-limit-step-fails-and-changes-nothing", "C11|fetch-error
         "C12|hook-phases-run-exactly-when-registered-for-this-mnemonic", "C12|before-precedes-and-after-follows-the-instruction-rip-pre-advanced",
         "C12|hook-modifications-persist", "C12|stop-ends-run-without-error", "C12|failing-hook-fails-the-step",
         "C11|step-after-finish-fails-and-changes-nothing"]
-EXECUTE = ["C11|never-more-than-limit-instructions", "C11|execute-ok-implies-finished", "C11|count-equals-instructions-dispatched",
-           "C11|step-after-execute-fails-and-changes-nothing"]
+EXECUTE = ["C11|execute-returns-what-repeated-stepping-returns", "C11|execute-reaches-the-state-repeated-stepping-reaches",
+           "C11|never-more-than-limit-instructions", "C11|execute-ok-implies-finished", "C11|step-after-execute-fails-and-changes-nothing"]
 HOOKS = ["C12|registration-outside-hooks-succeeds-and-is-per-mnemonic", "C12|hooks-run-in-order-each-once-until-handled-stop-or-error",
          "C12|phase-fails-iff-a-hook-failed", "C12|no-hook-running-after-phase", "C12|running-flag-set-while-hooks-execute",
          "C12|registration-from-inside-a-hook-is-refused", "C12|registration-possible-after-phase-even-after-hook-error",
@@ -35,16 +35,19 @@ def spec_of(name):
     if name.startswith("l3_hooks"):
         k = re.search(r"_k(\d)", name).group(1)
         return HOOKS, "k = %s hooks in the phase (bound of the unit: k <= 3)" % k, "src/state/hooks.rs::run_functions/run_before/run_after/hook_*_mnemonic_native/mnemonic_hooks"
-    if name == "l3_trace_add":
+    if name in ("l3_trace_add", "l3_trace_add_first"):
+        # two harnesses: a trace with an arbitrary last entry / an empty trace (add_trace reads nothing else); a symbolic
+        # Vec length cost 560 s and 14M SAT variables in one harness, the split takes 2 s
         return TRACE_ADD, None, "src/helpers/trace.rs::add_trace/trace_call/trace_return/trace_jump"
     if name == "l3_trace_render":
         return TRACE_RENDER, "<= 2 trace entries, <= 2 call stack entries; format! arguments are not evaluated (E3)", "src/helpers/trace.rs::trace/call_stack"
     if name == "l3_sys_brk":
         return BRK, None, "src/helpers/syscalls.rs::register_brk closure (via handle_syscalls_impl + Hook::run_before)"
-    if name == "l3_sys_pipe":
-        return PIPE, "one pipe, one write of <= 3 bytes, two reads of <= 4 bytes", "src/helpers/syscalls.rs::register_pipe closures"
+    if name.startswith("l3_sys_pipe_w"):
+        m = re.match(r"l3_sys_pipe_w(\d)_r(\d)_r(\d)", name)
+        return PIPE, "one pipe; history pipe(), write(%s bytes), read(%s), read(%s) with symbolic byte values" % m.groups(), "src/helpers/syscalls.rs::register_pipe closures"
     if name == "l3_sys_pipe_foreign_fd":
-        return PIPE_FD, "one pipe, count <= 3", "src/helpers/syscalls.rs::register_pipe closures"
+        return PIPE_FD, "one pipe, count = 2, any descriptor other than the matching end", "src/helpers/syscalls.rs::register_pipe closures"
     return [], None, ""
 
 
@@ -66,6 +69,10 @@ def run(tier="quick", prop=None, log=print):
             hs = [h for h in hs if "brk" in h["name"]]
         if prop == "C14":
             hs = [h for h in hs if "pipe" in h["name"]]
+        else:
+            # the Kani pipe harnesses are vacuous in this tool version (DESIGN.md 10.8); C14 and the handlers' panic-freedom
+            # are decided by the Verus pipe unit instead
+            hs = [h for h in hs if "pipe" not in h["name"]]
         res, st = R.run_generic("l3" + v, hs, lambda d, hh, v=v: K.build_l3(d, hh, v), K.l3_hash(v), tier, log=log, shard_cap=40, timeout_s=900,
                                 tmpl_builder=lambda d, v=v: K.build_l3(d, [], v))
         stats[v] = st
@@ -75,6 +82,13 @@ def run(tier="quick", prop=None, log=print):
             fns.add(fn)
             labels = labels + ["C19|no-panic"]
             t = (r.get("time") or 0.0) / len(labels)
+            cov = r.get("covers")
+            if r["status"] in ("success", "failed") and cov and cov[1] > 0 and cov[0] == 0:
+                # anti-vacuity: no cover of the harness is reachable => its obligations hold vacuously => not decided
+                for lb in labels:
+                    obs.append(core.ob("l3|%s|%s" % (h["name"], lb), [lb.split("|")[0]], "undecided", "kani", "kani_l3",
+                                       detail="vacuous: 0 of %d cover properties of harness %s are satisfiable" % (cov[1], h["name"]), location=fn))
+                continue
             if r["status"] in ("success", "failed"):
                 failed = {f["desc"][4:]: f for f in r["failed"] if f["desc"].startswith("OBL|")}
                 panics = [f for f in r["failed"] if not f["desc"].startswith("OBL|")]
